@@ -10,6 +10,8 @@ use std::rc::Rc;
 enum Ev {
     In,
     Out(u8),
+    /// the interpreter returned an error on a balanced program, or panicked
+    Failed(&'static str),
 }
 
 struct LogRead {
@@ -204,15 +206,27 @@ fn real2<C: CellType>(code: &str, input: &[u8], budget: Option<usize>, refuse_at
     let reader: Option<Box<dyn Read>> = if no_input { None } else { Some(Box::new(LogRead { data: input.to_vec(), pos: 0, fail_at: in_fail_at, fail_how: in_fail_how, n: 0, log: log.clone() })) };
     let writer: Option<Box<dyn Write>> = Some(Box::new(LogWrite { refuse_at, refuse_how, n: 0, log: log.clone() }));
     let mut cxt = Context::<C>::new(reader, writer);
-    let exec = InplaceInterpreter::<C>::create(code, 0).unwrap();
-    let fin = match budget {
-        None => {
-            exec.execute(&mut cxt).unwrap();
+    // every program of the enumeration is balanced: an error return or a panic is a failure, recorded
+    // as an impossible event so that every comparison with the canonical log fails
+    let run = std::panic::catch_unwind(std::panic::AssertUnwindSafe(|| {
+        let exec = InplaceInterpreter::<C>::create(code, 0)?;
+        match budget {
+            None => exec.execute(&mut cxt).map(|_| true),
+            Some(b) => {
+                cxt.budget = b;
+                exec.execute_limited(&mut cxt)
+            }
+        }
+    }));
+    let fin = match run {
+        Ok(Ok(f)) => f,
+        Ok(Err(_)) => {
+            log.borrow_mut().push(Ev::Failed("returned an error on a balanced program"));
             true
         }
-        Some(b) => {
-            cxt.budget = b;
-            exec.execute_limited(&mut cxt).unwrap()
+        Err(_) => {
+            log.borrow_mut().push(Ev::Failed("panicked"));
+            true
         }
     };
     let view: Vec<u64> = (0..17).map(|i| cxt.memory.read(i - 8).into_u64()).collect();
